@@ -72,7 +72,7 @@ def groups(tier, seed):
                                     for sel in ("concat('f:', name)", "concat_ws('-', 'f', path)", "replace('x-y', 'y', name)")
                                     for o in (0, 1) for r in ('dot', 'two')]}
     # family 6b: ... and nothing else is selected (the query must still be recognised as reading file columns)
-    yield {'tree': 'lim', 'selonly': True, 'cases': [{'sel': i, 'N': n, 'roots': r} for i in range(3) for n in (None, 0, 1, 2, 5, 50) for r in ('dot', 'two')]}
+    yield {'tree': 'lim', 'selonly': True, 'cases': [{'sel': i, 'N': n, 'roots': r} for i in range(len(SELONLY)) for n in (None, 0, 1, 2, 5, 50) for r in ('dot', 'two')]}
     # family 7: aggregates see every row whatever LIMIT says (one row is <= any N >= 1), also over several roots
     yield {'tree': 'lim', 'agg': True, 'cases': [{'roots': r, 'N': n, 'arc': a} for r in ('dot', 'two') for n in (None, 1, 2, 5) for a in (False, True)]}
     # family 4: grouped rows are rows too
@@ -364,7 +364,9 @@ def eval_big(env, root, group):
 
 
 SELONLY = [("concat('f:', name)", lambda e: 'f:' + e['name']), ("concat_ws('-', 'f', path)", lambda e: 'f-' + e['path']),
-           ("replace('x-y', 'y', name)", lambda e: 'x-' + e['name'])]
+           ("replace('x-y', 'y', name)", lambda e: 'x-' + e['name']),
+           # functions that read the entry although they name no column (values are not judged: None)
+           ("contains('zzz')", None), ("has_xattr(user.none)", None), ("concat('a', has_caps())", None), ("upper(contains('q'))", None)]
 
 
 def eval_selonly(env, root, group):
@@ -381,9 +383,9 @@ def eval_selonly(env, root, group):
         rows = o.rows()
         M = len(ents)
         want = M if N in (None, 0) else min(N, M)
-        allv = sorted(f(e) for e in ents)
+        allv = sorted(f(e) for e in ents) if f else None
         r = {'case': dict(c, fam='selonly', query=q), 'nt': True, 'layer': 'select-only-function-args'}
-        if o.rc != 0 or o.err or len(rows) != want or any(rows.count(v) > allv.count(v) for v in rows):
+        if o.rc != 0 or o.err or len(rows) != want or (allv is not None and any(rows.count(v) > allv.count(v) for v in rows)):
             r.update(status='viol', cls='row-count-function-arg-select', detail={'query': q, 'got': len(rows), 'expected': want, 'rows': rows[:4]}, sig=('selonly',))
         else:
             r.update(status='ok', sig=(c['sel'], N, len(rows)))
